@@ -19,6 +19,10 @@ func DecodeURI(uriString string) (bodySize int, uri string, tag string, err erro
 			err = ErrWrongSize
 			return
 		}
+		if bodySize < 0 {
+			err = ErrWrongSize
+			return
+		}
 		uri = parts[1]
 		if len(parts) > 2 {
 			tag = strings.Join(parts[2:], " ")
